@@ -25,6 +25,9 @@ const (
 	// RelExistingLink: outFile is a symbolic link to an existing regular file elsewhere (out/store/current.pdf,
 	// old content): whichever of the two the operation replaces, neither may ever hold a torn state
 	RelExistingLink = "existing-link"
+	// RelExistingSameSize: outFile exists, is exactly as long as the input and newer, but holds other bytes
+	// (a "looks up to date" short cut must not take it for the result)
+	RelExistingSameSize = "existing-samesize"
 	// C03 only: aliases of the input
 	RelDotSlash = "dotslash" // out = dir/./in.pdf
 	RelRelAbs   = "relabs"   // in absolute, out relative to cwd (cwd = in dir)
@@ -222,6 +225,22 @@ func Setup(o *Op, rel string, root string, outMode os.FileMode) (*Env, error) {
 		e.Dest = e.Out
 		e.OldOut = []byte{}
 		if err := os.WriteFile(e.Out, nil, outMode); err != nil {
+			return nil, err
+		}
+		os.Chmod(e.Out, outMode)
+	case RelExistingSameSize:
+		e.Out = filepath.Join(e.OutDir, "out"+ext)
+		e.Dest = e.Out
+		in, err := os.ReadFile(e.In[0])
+		if err != nil {
+			return nil, err
+		}
+		old := append([]byte(nil), in...)
+		for i := len(old) / 3; i < len(old)/3+64 && i < len(old); i++ {
+			old[i] ^= 0x55
+		}
+		e.OldOut = old
+		if err := os.WriteFile(e.Out, old, outMode); err != nil {
 			return nil, err
 		}
 		os.Chmod(e.Out, outMode)
